@@ -327,6 +327,10 @@ def dump_json(v):
 
 def json_of(v):
     """RON value (as read by loads) -> JSON-like Python value (for custom)."""
+    if isinstance(v, Id):
+        # a bare identifier in a self-describing position is a unit value in RON (serde_json reads it as null),
+        # not a string: `"flag": fale` denotes {"flag": null}
+        return None
     if v is None or isinstance(v, (bool, int, float, str)):
         return v
     if isinstance(v, Map):
